@@ -157,6 +157,8 @@ func (i *IfUnless) beforeEval(
 		p.Fatal(ctx, err)
 	}
 
+	ctx.IsLookahead = true
+
 	err = e.Eval(&p, ctx, nextT)
 	if err != nil {
 		p.Fatal(ctx, err)
